@@ -1,12 +1,19 @@
 (* Package-level variable initialisation order.
    sc_order: what internal/compiler/checker_package.go sortDeclarations does for
-   variables — repeatedly take the first declaration (in source order) whose
-   DIRECT references are all resolved, where every function counts as resolved.
-   go_order: the Go specification — repeatedly take the earliest variable that
+   variables - repeatedly take the first declaration (in source order) whose
+   references are all resolved: a reference to a variable is resolved when the
+   variable has been taken, a reference to a function when the variables that
+   the function refers to, directly or through other functions (visited by
+   levels, at most length funcs steps: funcVarDeps), have been taken.
+   sc_order_old: the algorithm before the repair (every function counted as
+   resolved), kept for the refutation that documents the defect.
+   go_order: the Go specification - repeatedly take the earliest variable that
    is ready, a variable depending on y if its initialiser refers to y or to a
    function that (transitively through functions) refers to y.
    A package is given by its variables and functions in source order, each
-   with the package-level names its initialiser / body refers to.  No proofs. *)
+   with the package-level names its initialiser / body refers to.  The model
+   keeps duplicates where the code uses a map of reached functions: the sets
+   are the same.  No proofs. *)
 From Verif Require Import Bytes.
 Open Scope N_scope.
 
@@ -37,14 +44,34 @@ Fixpoint order_by (ready : list name -> name * list name -> bool) (fuel : nat)
     end
   end.
 
-(* ---- Scriggo ---- *)
-Definition sc_ready (p : pkg) (done : list name) (v : name * list name) : bool :=
+Definition refs_of (l : list (name * list name)) (n : name) : list name :=
+  match assoc_get l n with Some r => r | None => [] end.
+
+(* ---- Scriggo before the repair ---- *)
+Definition sc_ready_old (p : pkg) (done : list name) (v : name * list name) : bool :=
   forallb (fun d => mem done d || is_func p d) (snd v).
+Definition sc_order_old (p : pkg) : list name := order_by (sc_ready_old p) (length (vars p)) (vars p) [].
+
+(* ---- Scriggo ---- *)
+Definition func_refs (p : pkg) (f : name) : list name := filter (is_func p) (refs_of (funcs p) f).
+Definition var_refs (p : pkg) (f : name) : list name := filter (is_var p) (refs_of (funcs p) f).
+
+(* the functions of the levels 0..k starting from the level fs *)
+Fixpoint freach (p : pkg) (k : nat) (fs : list name) : list name :=
+  fs ++ match k with
+        | O => []
+        | S k' => freach p k' (flat_map (func_refs p) fs)
+        end.
+
+(* funcVarDeps *)
+Definition func_var_deps (p : pkg) (f : name) : list name :=
+  flat_map (var_refs p) (freach p (length (funcs p)) [f]).
+
+Definition sc_ready (p : pkg) (done : list name) (v : name * list name) : bool :=
+  forallb (fun d => if is_func p d then forallb (mem done) (func_var_deps p d) else mem done d) (snd v).
 Definition sc_order (p : pkg) : list name := order_by (sc_ready p) (length (vars p)) (vars p) [].
 
 (* ---- Go specification ---- *)
-Definition refs_of (l : list (name * list name)) (n : name) : list name :=
-  match assoc_get l n with Some r => r | None => [] end.
 
 (* variables a function depends on, following function references up to depth fuel *)
 Fixpoint fdeps (p : pkg) (fuel : nat) (f : name) : list name :=
